@@ -16,6 +16,8 @@ import (
 
 	"seehuhn.de/go/sfnt"
 	"seehuhn.de/go/sfnt/glyf"
+	"seehuhn.de/go/sfnt/glyph"
+	"seehuhn.de/go/sfnt/opentype/coverage"
 	"seehuhn.de/go/sfnt/internal/debug"
 	"seehuhn.de/go/sfnt/opentype/gtab"
 	"seehuhn.de/go/sfnt/opentype/gtab/builder"
@@ -342,8 +344,29 @@ func genText(c *wk.Case) (font *sfnt.Font, fontName, text, kind string) {
 		g := &simgen.LookupGen{T: t, N: min(font.NumGlyphs(), 60)}
 		gsub := t.Chance(1, 2)
 		f2 := font.Clone()
+		bigLig := gsub && t.Chance(1, 3)
+		simhook.OrderID = uint64(t.Draw(4)) // Explain ranges over coverage maps
 		pi := c.Guard(func() {
-			if gsub {
+			if bigLig {
+				// many ligatures sharing few first glyphs: their order is
+				// significant (the first match wins)
+				firsts := g.GlyphSet(6)
+				sub := &gtab.Gsub4_1{Cov: coverage.Table{}}
+				for i, first := range firsts {
+					sub.Cov[first] = i
+					var ligs []gtab.Ligature
+					for j := t.Range(2, 6); j > 0; j-- {
+						var in []glyph.ID
+						for k := t.Range(1, 3); k > 0; k-- {
+							in = append(in, g.GlyphSet(1)[0])
+						}
+						ligs = append(ligs, gtab.Ligature{In: in, Out: g.GlyphSet(1)[0]})
+					}
+					sub.Repl = append(sub.Repl, ligs)
+				}
+				f2.Gsub = &gtab.Info{LookupList: gtab.LookupList{{Meta: &gtab.LookupMetaInfo{LookupType: 4}, Subtables: []gtab.Subtable{sub}}}}
+				text = builder.ExplainGsub(f2)
+			} else if gsub {
 				info := &gtab.Info{}
 				for i := t.Range(1, 3); i > 0; i-- {
 					tp := uint16(t.Range(1, 6))
@@ -362,10 +385,14 @@ func genText(c *wk.Case) (font *sfnt.Font, fontName, text, kind string) {
 				text = strings.Join(builder.ExplainGpos(f2), "\n")
 			}
 		})
+		simhook.OrderID = 0
 		if pi != nil {
 			text = gsubSample
 		}
 		kind = "explain"
+		if bigLig {
+			kind = "explain-ligatures"
+		}
 	default:
 		text = string(t.Bytes(t.Range(0, 60)))
 		kind = "byte-soup"
@@ -440,6 +467,8 @@ func run(c *wk.Case) {
 	}
 	f2 := font.Clone()
 	var text2 string
+	simhook.OrderID = uint64(c.T.Draw(4))
+	defer func() { simhook.OrderID = 0 }()
 	pi := c.Guard(func() {
 		if isGsub {
 			f2.Gsub = &gtab.Info{LookupList: out.lookups}
